@@ -18,12 +18,11 @@ impl DateTime {
             .find(|n| n.has_tag_name("dateTimeValue") && n.attribute("type") == Some("Float"))
             .invalid_err("Unable to find XML tag 'dateTimeValue' with type 'Float'")?
             .text();
-        let gps_time = if let Some(text) = gps_time_text {
-            text.parse::<f64>()
-                .invalid_err("Failed to parse inner text of XML tag 'dateTimeValue' as double")?
-        } else {
-            return Ok(None);
-        };
+        // An empty tag means zero, this is how some E57 libraries write zero values
+        let gps_time = gps_time_text
+            .unwrap_or("0")
+            .parse::<f64>()
+            .invalid_err("Failed to parse inner text of XML tag 'dateTimeValue' as double")?;
 
         let atomic_reference_node = node.children().find(|n| {
             n.has_tag_name("isAtomicClockReferenced") && n.attribute("type") == Some("Integer")
